@@ -39,7 +39,7 @@ Verdicts (brief, section "The one technique allowed"):
 Process model (measured on the curves crate, Kani 0.68): the crate is built ONCE
 (`cargo kani --only-codegen`, ~25 s cold, target dir `<target>/base`), the target dir (~120 MB) is cloned
 per worker slot (0.2 s) and each worker runs `cargo kani --harness <h> --exact` in its own slot
-(`--target-dir <target>/slot<k>`; selecting another harness recompiles only the harness crate, 1-3 s).
+(`--target-dir <target>/slot-<pid>-<k>`; `base` is protected by a file lock so that several checks can share a crate; selecting another harness recompiles only the harness crate, 1-3 s).
 One `cargo kani -j N` invocation is equally fast but gives no per-harness timeout/memory limit and
 interleaves output, so it is not used. Every process runs under `ulimit -v <mem_kb>` and `timeout`.
 
@@ -55,7 +55,7 @@ NATIVE REPLAY PROTOCOL (what a harness crate must provide so that FAILED can bec
 `kani.native_tool(crate_rel_dir, bin, args)` builds and runs any other native binary of the crate (real-FFI witnesses).
 `kani.replay(payload)` re-executes a stored replay file (used by `check <ID> --replay`), returns 1 if it reproduces.
 """
-import os, re, json, time, shutil, subprocess, threading, queue
+import os, re, json, time, shutil, subprocess, threading, queue, fcntl
 
 from . import core
 
@@ -175,7 +175,15 @@ class _Crate:
         return os.path.join(self.target_dir, "base")
 
     def slot(self, k):
-        return os.path.join(self.target_dir, f"slot{k}")
+        # per-process names: several checks (C10, C11, C12 ...) may run concurrently on the same crate
+        return os.path.join(self.target_dir, f"slot-{os.getpid()}-{k}")
+
+    def locked(self):
+        """Exclusive lock on the shared `base` target dir (codegen + cloning)."""
+        os.makedirs(self.target_dir, exist_ok=True)
+        f = open(os.path.join(self.target_dir, ".base.lock"), "w")
+        fcntl.flock(f, fcntl.LOCK_EX)
+        return f
 
     def codegen(self, harnesses, timeout=1200):
         cmd = ["cargo", "kani", "--target-dir", self.base()] + self.kani_flags + ["--only-codegen", "--exact"]
@@ -285,7 +293,7 @@ def _decide(run, crate, spec, ob, slot):
         return ob.set(core.INCONCLUSIVE, f"FAILED ({fdesc}) but {why}", solver="cbmc+cadical", solver_s=vt + dt2)
     last = None
     for t in tests[:4]:
-        payload = dict(engine="K", crate=crate.rel_dir, harness=spec["harness"], concrete_vals=t["vals"],
+        payload = dict(engine="K", engine_part="K", crate=crate.rel_dir, harness=spec["harness"], concrete_vals=t["vals"],
                        failed_checks=genuine, kani_check=t["check"], kani_test=t["text"], stubs=stubs,
                        replay_bin=spec.get("replay_bin") or crate.replay_bin, how="check <ID> --replay <this file>: native run of the same harness body "
                        "with kani::any() fed from concrete_vals (FFI stubs answer from the same values)")
@@ -320,14 +328,18 @@ def run_harnesses(run, crate_rel_dir, harness_specs, jobs=None, kani_flags=("-Z"
     jobs = max(1, min(jobs, len(specs)))
     crate = _Crate(crate_rel_dir, name, kani_flags, replay_bin, mem_kb)
     t0 = time.time()
-    rc, out, dt = crate.codegen([s["harness"] for s in specs])
-    if rc != 0:
-        errs = "\n".join(l for l in out.splitlines() if re.match(r"error", l))[:400] or out[-400:]
-        for ob in obs:
-            ob.set(core.INCONCLUSIVE, f"kani codegen failed (rc={rc}): {errs}")
-        run.log(f"K: codegen of {crate_rel_dir} FAILED in {dt:.0f}s")
-        return obs
-    crate.clone_slots(jobs)
+    lock = crate.locked()
+    try:
+        rc, out, dt = crate.codegen([s["harness"] for s in specs])
+        if rc != 0:
+            errs = "\n".join(l for l in out.splitlines() if re.match(r"error", l))[:400] or out[-400:]
+            for ob in obs:
+                ob.set(core.INCONCLUSIVE, f"kani codegen failed (rc={rc}): {errs}")
+            run.log(f"K: codegen of {crate_rel_dir} FAILED in {dt:.0f}s")
+            return obs
+        crate.clone_slots(jobs)
+    finally:
+        lock.close()
     run.log(f"K: {crate_rel_dir}: codegen {dt:.0f}s, {len(specs)} harnesses, {jobs} workers, target {crate.target_dir}")
     order = sorted(range(len(specs)), key=lambda i: -float(specs[i].get("est", 10)))
     q = queue.Queue()
@@ -381,7 +393,10 @@ def native_tool(crate_rel_dir, bin_name, args, profile="debug", name=None, timeo
 
 
 def replay(payload):
-    """Re-execute a stored K replay file against the current tree. Returns 1 if the failure reproduces."""
+    """Re-execute a stored K replay file against the current tree. Returns 1 if the failure reproduces
+    (None if the payload is not a K replay, so that an aggregator can try the next part)."""
+    if payload.get("engine") != "K" or "harness" not in payload:
+        return None
     crate = _Crate(payload["crate"], None, (), payload.get("replay_bin", "replay"), 12 * 1024 * 1024)
     reproduced, detail, per = crate.run_native(payload["harness"], payload["concrete_vals"], replay_bin=payload.get("replay_bin"))
     for k, v in per.items():
